@@ -129,6 +129,8 @@ func ScalarBytes(label string) []byte {
 	v.FillBytes(b)
 	return b
 }
+func AllowRandom()       {}
+func AssumeHashScalars() {}
 func IteBig(c bool, a, b *big.Int) *big.Int {
 	if c {
 		return a
